@@ -295,8 +295,19 @@ def c16(ctx):
         printer_slice(ctx, sl, module="MCRoutes", cfg="Routes.cfg")
 
 
+def buffermem_model(ctx):
+    """BufferMem: the buffer at the level of backing arrays, len/cap and aliasing (struct copies of the value-receiver
+    accessors, strings aliasing the array after Take): refinement of the value-level Buffer + C13's aliasing clauses"""
+    ctx.tlc_only("BufferMem", "BufferMem.cfg", workers=16, consts=dict(MaxOpsM=tier(ctx, 5, 7), MaxArr=tier(ctx, 18, 24)))
+    if ctx.tier == "thorough":
+        for d in ("accessor_in_place", "take_keeps_array", "string_aliases"):
+            st = ctx.tlc_only("BufferMem", "BufferMem.cfg", workers=16, expect_ok=False, consts=dict(DefectM='"%s"' % d))
+            ctx.control("BufferMem with the seeded defect %s must violate an invariant" % d, (not st["ok"]) and "is violated" in st["text"])
+
+
 def c13(ctx):
     buffer_model(ctx)
+    buffermem_model(ctx)
     buffer_traces(ctx)
     repo_suite_traces(ctx)
 
